@@ -83,6 +83,11 @@ def make_dataset(frame, kshape, bits, psf_kind="nonneg", seed=0, sub=1, data_kin
     psf = aa.Kernel2D.no_mask(values=kv, pixel_scales=scales)
     if sub is None:
         over = aa.OverSamplingDataset()
+    elif sub == 0:
+        # per-pixel (non-uniform) sub-size map, cyclic 2,1,3 over the unmasked pixels in slim order
+        n_un = int((~m).sum())
+        smap = aa.Array2D(values=np.array([2, 1, 3])[np.arange(n_un) % 3], mask=mask)
+        over = aa.OverSamplingDataset(pixelization=aa.OverSamplingUniform(sub_size=smap))
     else:
         over = aa.OverSamplingDataset(pixelization=aa.OverSamplingUniform(sub_size=sub))
     ds = aa.Imaging(data=data, noise_map=noise, psf=psf, over_sampling=over, use_normalized_psf=normalize)
